@@ -285,15 +285,40 @@ SPECS.append(FucSpec(
 
 
 # ----------------------------------------------------------------------------- send: send firewall (segment before the first yield)
+def pending_inv(I, self):
+    """representation invariant of the table of pending calls: every id in it was handed out by this connection's counter"""
+    d = I.field(self, '_Protocol__events')
+    k = core.fresh('k', z3.IntSort())
+    return z3.ForAll([k], z3.Implies(z3.Select(d.dom, k), z3.And(k >= 0, k < I.fz(self, '_Protocol__nid'))))
+
+
+def s_dump_event(I, recv, args, kw):
+    log(I, 'DUMPED').append(list(args))
+    return VStr(core.fn('dump_event_2', core.RefSort(), z3.IntSort(), S())(args[0].t, coerce(args[1], Int).t))
+
+
 def sd_setup(I):
     self = obj(I, 'self', 'Protocol')
     event = obj(I, 'event', 'Event')
+    I.assume(pending_inv(I, self), 'rep invariant: pending call ids were handed out by this connection\'s counter')
+    I.assume(I.fz(self, '_Protocol__nid') >= 0)
+    I.st.ghost['PENDING0'] = I.field(self, '_Protocol__events')
     I.assume(z3.Not(z3.Select(I.st.heap['node_without_result'][0], event.t)) if False else z3.BoolVal(True))
     return {'self': self, 'event': event}
 
 
 def sd_yield(I, v):
     log(I, 'YIELDS').append(v)
+    if log(I, 'SENT') and isinstance(v, VNone) and len(log(I, 'DUMPED')) == 1:
+        # suspended waiting for the result: the call is found under the id the peer will answer with
+        d_ = I.field(I.local('self'), '_Protocol__events')
+        used_ = coerce(log(I, 'DUMPED')[0][1], Int).t
+        cover(I, 'waiting')
+        I.oblige('waiting_call_is_remembered_under_the_id_it_was_sent_with',
+                 z3.And(z3.Select(d_.dom, used_), z3.Select(d_.vals[0], used_) == I.local('event').t))
+    if log(I, 'SENT'):
+        I.oblige('pending_table_invariant_kept', pending_inv(I, I.local('self')),
+                 detail='while the call waits for its result (other calls are sent meanwhile) ids in the table stay below the counter')
     # the generator is driven by processTask; after the first suspension the remote side may have finished
     if len(log(I, 'YIELDS')) > 3:
         raise PathKill()
@@ -322,9 +347,24 @@ def sd_post(I, outcome, ctx):
         cover(I, 'sent')
         pre = ctx['pre']
         nid0 = z3.Select(pre['_Protocol__nid'][0], self.t)
-        I.oblige('packet_is_dumped_event_plus_delimiter', sent[0].t == z3.Concat(
-            core.fn('py_encode', S(), S())(core.fn('dump_event_2', core.RefSort(), z3.IntSort(), S())(event.t, nid0)), DELIM))
-        I.oblige('call_ids_are_fresh', I.fz(self, '_Protocol__nid') == nid0 + 1)
+        _d = log(I, 'DUMPED')
+        _id = coerce(_d[0][1], Int).t if len(_d) == 1 and len(_d[0]) >= 2 else nid0
+        I.oblige('packet_is_dumped_event_plus_delimiter', z3.And(z3.BoolVal(len(_d) == 1), sent[0].t == z3.Concat(
+            core.fn('py_encode', S(), S())(core.fn('dump_event_2', core.RefSort(), z3.IntSort(), S())(event.t, _id)), DELIM)),
+            detail='the packet is the serialisation of THIS event under the call id it is remembered by, plus the delimiter')
+        # "every sequence of several in-flight events ... its result comes back to the sender's waiting handler": results are routed by
+        # call id, so the id a call is transmitted (and remembered) under must not be the id of a call that is still waiting
+        dumped = log(I, 'DUMPED')
+        d0 = I.st.ghost['PENDING0']
+        if len(dumped) == 1 and len(dumped[0]) >= 2:
+            used = coerce(dumped[0][1], Int).t
+            I.oblige('call_id_not_shared_with_a_call_still_in_flight', z3.Not(z3.Select(d0.dom, used)),
+                     detail='the id of the new call is the id of a pending one: the pending call is overwritten, its caller gets the '
+                            'other result or none')
+        else:
+            I.oblige('call_id_not_shared_with_a_call_still_in_flight', z3.BoolVal(False), detail='%d dump_event calls' % len(dumped))
+        I.oblige('pending_table_invariant_kept', pending_inv(I, self),
+                 detail='ids in the table of pending calls stay below the counter (what makes the next id fresh)')
 
 
 def s_send_packet(I, recv, args, kw):
@@ -334,13 +374,14 @@ def s_send_packet(I, recv, args, kw):
 
 SPECS.append(FucSpec(
     'C19', FILE, 'Protocol.send', sd_setup, sd_post, fields=N_FIELDS,
-    calls={'self.__send_event_firewall': s_firewall, 'self.__send': s_send_packet, 'dump_event': uf('dump_event'),
+    calls={'self.__send_event_firewall': s_firewall, 'self.__send': s_send_packet, 'dump_event': s_dump_event,
            'Value': lambda I, r, a, k: I.st.fresh_ref('Value')},
     env={'DELIMITER': VStr(b'~~~')}, on_yield=sd_yield, attr_hooks={'event.value': lambda I: I.st.fresh_ref('Value')},
     loops={0: LoopSpec(inv=[('true', lambda I: z3.BoolVal(True))], havoc_fields=['remote_finish'])},
-    cover=['return', 'sent'],
+    cover=['return', 'sent', 'waiting'], replay=lambda model, ob: open(os.path.join(os.path.dirname(os.path.dirname(os.path.abspath(__file__))), 'replay', 'C19_inflight.py')).read(),
     clause='send (up to and including the wait for the remote result): an event refused by the send firewall is never transmitted; '
-           'an accepted one is serialised with a fresh call id and transmitted exactly once'))
+           'an accepted one is serialised under a call id that no call still in flight on this connection has, transmitted exactly once, '
+           'and remembered under that id while it waits'))
 
 
 # ----------------------------------------------------------------------------- load_event / load_value on an arbitrary JSON value
@@ -658,3 +699,47 @@ SPECS.append(CustomCheck('C19', 'segmentation(bounded)', run_bounded('node_segme
 SPECS.append(CustomCheck('C19', 'hostile_packets(bounded)', run_bounded('node_hostile.py', 'hostile', ''), bounded=True,
                          file='bounded/node_hostile.py',
                          clause='BOUNDED: no packet from a grammar of JSON mutations and metadata keys stops the local event loop'))
+
+
+# ----------------------------------------------------------------------------- per-connection state (structural)
+# The heap model gives every Protocol object its own `__events` table, which is what the contracts above reason about.  In Python
+# that is only true if the attribute is bound on the instance: a dict that exists ONLY as a class attribute and is filled through
+# `self.__events[id] = ...` is one table shared by all connections of the process, while the id counter (`self.__nid += 1`) is per
+# connection - two connections then use the same ids in one table and the answer to one call finishes another connection's call.
+def tables_structural(res, opts):
+    mod = contract.ModInfo(FILE)
+    cls = [n for n in mod.tree.body if isinstance(n, ast.ClassDef) and n.name == 'Protocol'][0]
+    shared = {}
+    for st in cls.body:
+        if isinstance(st, ast.Assign) and len(st.targets) == 1 and isinstance(st.targets[0], ast.Name) and \
+                isinstance(st.value, (ast.Dict, ast.List, ast.Set)) or (
+                isinstance(st, ast.Assign) and isinstance(st.value, ast.Call) and ast.unparse(st.value.func) in ('dict', 'list', 'set', 'deque', 'defaultdict')):
+            shared[st.targets[0].id] = st.lineno
+
+    def demangle(a):
+        return a[len('_Protocol'):] if a.startswith('_Protocol__') else a
+    bound, mutated = set(), set()
+    for fn_ in [n for n in cls.body if isinstance(n, (ast.FunctionDef, ast.AsyncFunctionDef))]:
+        for n in ast.walk(fn_):
+            tg = n.targets if isinstance(n, ast.Assign) else [n.target] if isinstance(n, (ast.AugAssign, ast.AnnAssign)) else \
+                n.targets if isinstance(n, ast.Delete) else []
+            for t in tg:
+                if isinstance(t, ast.Attribute) and isinstance(t.value, ast.Name) and t.value.id == 'self' and isinstance(n, ast.Assign) \
+                        and fn_.name in ('init', '__init__'):
+                    bound.add(demangle(t.attr))
+                if isinstance(t, ast.Subscript) and isinstance(t.value, ast.Attribute) and isinstance(t.value.value, ast.Name) \
+                        and t.value.value.id == 'self':
+                    mutated.add(demangle(t.value.attr))
+            if isinstance(n, ast.Call) and isinstance(n.func, ast.Attribute) and n.func.attr in ('append', 'add', 'update', 'pop', 'setdefault', 'clear', 'extend') \
+                    and isinstance(n.func.value, ast.Attribute) and isinstance(n.func.value.value, ast.Name) and n.func.value.value.id == 'self':
+                mutated.add(demangle(n.func.value.attr))
+    bad = sorted(a for a in shared if a in mutated and a not in bound)
+    add_ob(res, 'tables.mutable_state_filled_through_self_is_per_connection', not bad, 'ast',
+           detail='class-level mutable attributes mutated through self without an instance binding in init(): %s' % (bad or 'none'))
+
+
+SPECS.append(CustomCheck('C19', 'Protocol tables(structural)', tables_structural, file=FILE,
+                         clause='the table of pending calls (any mutable table filled through self) is bound per Protocol instance, as the '
+                                'heap model of the contracts assumes: ids are counted per connection, so a table shared by all connections '
+                                'would route an answer to another connection\'s call'))
+SPECS[-1].replay = lambda model, ob: open(os.path.join(os.path.dirname(os.path.dirname(os.path.abspath(__file__))), 'replay', 'C19_inflight.py')).read()
